@@ -744,6 +744,10 @@ func goCode(root string, unit string) string {
 		header("Model.GoSem", "Model.GoJson", "Model.GoSlices", "Model.GoPtr", "Generated.GoObject")
 		text, errs := translateClient(root, "client/client.go", []string{"FetchUnknown"})
 		emit("client/client.go (FetchUnknown)", text, errs)
+	case "listing":
+		header("Model.GoSem", "Model.GoJson", "Model.GoSlices", "Model.Pub", "Model.GoPub", "Generated.GoObject")
+		text, errs := translateListing(root)
+		emit("pub/actor.go, pub/post.go, pub/common.go (the listing filters: which entry is shown as itself, which as an error item)", text, errs)
 	default:
 		b.WriteString("-- unknown unit " + unit + "\n")
 	}
